@@ -456,7 +456,8 @@ def rule_R4(ctx, f):
     ok = len(ents) == 1
     if ok:
         # without the is_empty edge every path from the loop body back to the header passes the lookup
-        r = b.reach(body_entry, avoid_blocks=[ents[0].bb], avoid_edges=skip_edges)
+        # (path-sensitive: a predicate that is the constant `true` in this caller, e.g. `gather_with(|_| true)`, skips nothing)
+        r = b.reach_ps(body_entry, avoid_blocks=[ents[0].bb], avoid_edges=set(skip_edges))
         ok = inner.bb not in r
     ctx.ob(rid, "gather|only-empty-skipped", ok and len(skip_edges) + ei[1].count("filter") == 1, "a family may bypass the merge only on the `get_metric().is_empty()` edge", site=inner.span)
     fam = ("field", ("downcast", inner.result_term(), "Some"), "0")
